@@ -79,6 +79,8 @@ def run(ctx):
     rl += ['ksreal %d %d %d %d %d %d 1 15 1' % (n, no, t, b, ns, ctx.seed * 100 + sd + 50) for (n, no, t, b, ns, sd) in real if n * t * (1 << b) <= 40000][:: (1 if thorough else 2)]
     # the key as element 0 of an array of three keys, the other two generated afterwards for other secrets
     rl += ['ksreal %d %d %d %d %d %d 1 15 2' % (n, no, t, b, ns, ctx.seed * 100 + sd + 70) for (n, no, t, b, ns, sd) in real if n * t * (1 << b) <= 40000][1:: (1 if thorough else 3)]
+    # a ternary source key (coefficients -1, 0, 1, e.g. the extracted key of a ring key that is not binary): the rows encrypt h*s_i/base^(j+1) with s_i = -1 too
+    rl += ['ksreal %d %d %d %d %d %d 1 15 3' % (n, no, t, b, ns, ctx.seed * 100 + sd + 90) for (n, no, t, b, ns, sd) in real if n * t * (1 << b) <= 40000][:: (1 if thorough else 3)]
     for l, o in zip(rl, vlib.run_lines(exes['optim'], rl, timeout=1800)):
         ctx.count(l)
         if o.startswith('CRASH'): ctx.report('ksreal-crash', l + ': ' + o, {'case': l, 'impl': o}); continue
